@@ -18,7 +18,8 @@ def run(chk):
     chk.rule = ('(1) TLC checks the codec laws of spec/TrashInfo.tla exhaustively over a 16-byte alphabet (Unescape(Escape(p)) = p, '
                 'ParsePath/ParseDate(FormatInfo(p,d)) = (p,d), WellFormed). (2) real trash-put trashes entries whose '
                 'locations are random byte strings (any byte 1-255 except /, names to 236 bytes, depth to 6, home and '
-                '$topdir trash directories, random and boundary clock values) and all paths over the same alphabet; '
+                '$topdir trash directories and a --trash-dir named directly or through a symlink from another volume, random and '
+                'boundary clock values) and all paths over the same alphabet; '
                 'TLC evaluates WellFormed on the bytes of each written .trashinfo (header, escaped Path that decodes to '
                 'exactly the location - absolute, or relative without .. - and the date). (3) real trash-list, '
                 'trash-restore and trash-rm read the same files back and TLC checks each shown path/date against '
@@ -27,6 +28,10 @@ def run(chk):
     common.fun_laws(chk)
     common.fun_stage(chk, 'random-names', 'putrb', 150 if quick else 2500)
     common.fun_stage(chk, 'utf8-names', 'putrb', 40 if quick else 400, {'utf8_only': True})
+    # --trash-dir on another volume, named directly and through a symlink that lives on the root volume (the same spelling
+    # for the writer and the readers): what is written must decode, for those readers, to the exact location
+    common.fun_stage(chk, 'custom-dir', 'putrb', 25 if quick else 300, {'td': 'c'})
+    common.fun_stage(chk, 'custom-dir-through-link', 'putrb', 25 if quick else 300, {'td': 'clink'})
     ap = alphabet_paths()
     per = 16
     chunks = [ap[i:i + per] for i in range(0, len(ap), per)]
